@@ -60,7 +60,8 @@ OPEN_TYPE_ber_get(const asn_codec_ctx_t *opt_codec_ctx,
     }
 
     selected = elm->type_selector(td, sptr);
-    if(!selected.presence_index) {
+    if(!selected.presence_index || !selected.type_descriptor
+       || selected.presence_index > elm->type->elements_count) {
         ASN__DECODE_FAILED;
     }
 
@@ -164,7 +165,8 @@ OPEN_TYPE_xer_get(const asn_codec_ctx_t *opt_codec_ctx,
     }
 
     selected = elm->type_selector(td, sptr);
-    if(!selected.presence_index) {
+    if(!selected.presence_index || !selected.type_descriptor
+       || selected.presence_index > elm->type->elements_count) {
         ASN__DECODE_FAILED;
     }
 
@@ -338,7 +340,8 @@ OPEN_TYPE_uper_get(const asn_codec_ctx_t *opt_codec_ctx,
     }
 
     selected = elm->type_selector(td, sptr);
-    if(!selected.presence_index) {
+    if(!selected.presence_index || !selected.type_descriptor
+       || selected.presence_index > elm->type->elements_count) {
         ASN__DECODE_FAILED;
     }
 
